@@ -1,7 +1,10 @@
 from vlib import H
 PROPERTY = 'C29'
 LEVEL = 'model_checking'
-CLAIM = 'placeholder'
+CLAIM = ('Context-free package checks of policy/packages.cpp executed symbolically on real CTransaction objects and the real libstdc++ unordered_set code, against predicates written from the property text and the '
+         'documentation in policy/packages.h: IsWellFormedPackage accepts iff count <= 25, (count <= 1 or total weight <= 404,000), no duplicate txid, no transaction spends a same-or-later package transaction, and no prevout is spent by '
+         'two different transactions, with the documented reject reason in the documented order; IsTopoSortedPackage / IsConsistentPackage equal their clauses; IsChildWithParents iff >= 2 transactions and every non-last '
+         'transaction is spent by the last; IsChildWithParentsTree iff additionally no parent spends a parent. The topology (which txid and output index every input spends, over the package txids and two external txids) is symbolic.')
 LINK = ['policy/packages.cpp', 'primitives/transaction.cpp', 'script/script.cpp', 'uint256.cpp', 'hash.cpp']
 HT_TXID = '_ZNSt10_HashtableI22transaction_identifierILb0EES1_SaIS1_ENSt8__detail9_IdentityESt8equal_toIS1_E16SaltedTxidHasherNS3_18_Mod_range_hashingENS3_20_Default_ranged_hashENS3_20_Prime_rehash_policyENS3_17_Hashtable_traitsILb1ELb1ELb1EEEE13_M_rehash_auxEmSt17integral_constantIbLb1EE'
 HT_OUTP = '_ZNSt10_HashtableI9COutPointS0_SaIS0_ENSt8__detail9_IdentityESt8equal_toIS0_E20SaltedOutpointHasherNS2_18_Mod_range_hashingENS2_20_Default_ranged_hashENS2_20_Prime_rehash_policyENS2_17_Hashtable_traitsILb0ELb1ELb1EEEE13_M_rehash_auxEmSt17integral_constantIbLb1EE'
@@ -15,7 +18,9 @@ HARNESSES = [
     H('pkg', 'pkg.cpp', 'h_pkg', link=LINK, variants=[{'NTX': 1, 'NIN_CHILD': 1}, {'NTX': 1, 'NIN_CHILD': 2}, {'NTX': 2}, {'NTX': 2, 'DUP': 1}, {'NTX': 3, 'ONLY_CWP': 1}, {'NTX': 3, 'ONLY_WELLFORMED': 1}], tvariants=[{'NTX': 1, 'NIN_CHILD': 1}, {'NTX': 1, 'NIN_CHILD': 2}, {'NTX': 2}, {'NTX': 2, 'DUP': 1}, {'NTX': 3, 'ONLY_CWP': 1}, {'NTX': 3, 'ONLY_WELLFORMED': 1}, {'NTX': 3, 'DUP': 2}],
       functions=FN, stubs=ST, shadow=['nofmt'], unwind=15, memunwind=0, unwindset=US, timeout=900, objbits=11,
       assumptions=['package txids are pairwise distinct constants except in the DUP shapes (the public IsTopoSortedPackage documents this precondition)', 'no witnesses'],
-      bounds='placeholder'),
+      bounds='packages of 1 transaction (1 or 2 inputs), 2 transactions (1+2 inputs, all five functions), 3 transactions (1+1+2 inputs; IsWellFormedPackage and the two child-with-parents functions in separate queries); '
+             'every input spends (txid selector over package txids + 2 external txids, output index 0..1), all symbolic; duplicate-txid shapes (tx1==tx0, thorough also tx2==tx0); '
+             'mempool-level outcome of AcceptPackage is out of scope'),
     H('pkg_limits', 'pkg.cpp', 'h_pkg', link=LINK, defines={'FIXED_TOPOLOGY': 1, 'ONLY_WELLFORMED': 1},
       variants=[{'NTX': 25, 'NIN_CHILD': 1}, {'NTX': 26, 'NIN_CHILD': 1}, {'NTX': 2, 'BIGLEN': 100835}, {'NTX': 2, 'BIGLEN': 100836, 'OVERWEIGHT': 1}],
       functions=FN, stubs=ST, shadow=['nofmt'], unwind=40, memunwind=0, unwindset=US.replace('.0:16', '.0:40').replace('ll_memset.0:112', 'll_memset.0:260'), timeout=900, objbits=11,
